@@ -260,7 +260,7 @@ def trace_stage(ctx, fmt, binname, ndocs, extra=()):
     for f in os.listdir(sample_dir):
         os.unlink(os.path.join(sample_dir, f))
     rc, out, wall = vlib.sh([b, "record", tp, "seed=%d" % ctx.seed, "docs=%d" % ndocs,
-                             "sample=" + sample_dir, "nsample=%d" % (8 if ctx.quick else 40)] + list(extra),
+                             "sample=" + sample_dir, "nsample=%d" % (10 if ctx.quick else 40)] + list(extra),
                             timeout=1800)
     stats = json.loads(out.strip().splitlines()[-1])
     ctx.stage("record", wall, **stats)
@@ -298,7 +298,7 @@ def trace_stage(ctx, fmt, binname, ndocs, extra=()):
 def run(ctx):
     q = ctx.quick
     model_stage(ctx, "json")
-    n, sample_dir, sig_of = trace_stage(ctx, "json", "c28", 80 if q else 400)
+    n, sample_dir, sig_of = trace_stage(ctx, "json", "c28", 110 if q else 1000)
     ncli = 0
     if not ctx.violations:
         ncli = cli_stage(ctx, "json", sample_dir, sig_of)
